@@ -25,7 +25,7 @@ TRUSTED = [
 
 def cases_for(tier, seed, extra_pinned=()):
     n = 40 if tier == "quick" else 600
-    return list(corpus.PINNED) + list(extra_pinned) + corpus.random_cases(seed, n)
+    return list(corpus.PINNED) + list(corpus.OPTION_CASES) + list(extra_pinned) + corpus.random_cases(seed, n)
 
 
 def compile_one(code, want_text=True, lit="exact"):
